@@ -232,6 +232,7 @@ func c16Body(tier string) func(x *engine.X) {
 				}
 				return n
 			}
+			c.vs.AsyncAccept = c.vs.Accept // an asynchronous write needs two attempts as well
 		}
 		if c.deferred {
 			c.vs.DeferWrite = func() bool { return true }
@@ -258,6 +259,7 @@ func c16Body(tier string) func(x *engine.X) {
 			}
 			c.vs.DeferWrite = nil
 			c.vs.Accept = nil
+			c.vs.AsyncAccept = nil
 			c.drain()
 			_ = c.ws.Flush()
 			for _, f := range c.after {
